@@ -82,7 +82,7 @@ type Case struct {
 
 func setup() {
 	c := ev.C()
-	c.Rule = "RIB contents from model-aimed histories biased to backup groups (shared, missing, circular) and cross-NI references; at the flush point the full decision table {DEFAULT,VRF-A,VRF-B,all,unset,\"\",unknown} x {no election field, override, id in {0, lower (low word / high word / low-bigger-high-smaller), equal, higher (low / high word)}} is enumerated against server election state {learnt id from a 128-bit lattice, none learnt (contents injected)}: every non-authorised or malformed cell must return the specified code+reason and change nothing (Get + hooks), then one drawn authorised cell must answer OK, empty exactly its targets, leave the others identical and counters consistent, and a generated epilogue of further operations must behave as the model predicts. Plus (rib API) RIBs built with DisableRIBCheckFn (the reconciler's configuration) holding entries whose group is missing or whose group network instance is unknown: a Flush must succeed, empty exactly its targets and leave the rest as read back before. Plus (rib API) Flushes of 1-3 instances in a drawn order that are stopped through the post-change hook at a drawn removal notification, where one further operation is started on another goroutine and the Flush resumes only once that operation returned or is parked on a lock (goroutine state): the final contents must equal 'operation, then flush' or 'flush, then operation' (belief model, forward references off), Flush must report success and counters must equal referrers. Non-trivial = at the flush point >=2 network instances are non-empty and there is a cross-NI reference or a backup group (injection cases: the injection happened and >=2 instances were non-empty); distinct by FNV-64 of the case JSON."
+	c.Rule = "RIB contents from model-aimed histories biased to backup groups (shared, missing, circular) and cross-NI references; at the flush point the full decision table {DEFAULT,VRF-A,VRF-B,all,unset,\"\",unknown} x {no election field, override, id in {0, lower (low word / high word / low-bigger-high-smaller), equal, higher (low / high word)}} is enumerated against server election state {learnt id from a 128-bit lattice, none learnt (contents injected)}: every non-authorised or malformed cell must return the specified code+reason and change nothing (Get + hooks), then one drawn authorised cell must answer OK, empty exactly its targets, leave the others identical and counters consistent, and a generated epilogue of further operations must behave as the model predicts. Plus (rib API) RIBs built with DisableRIBCheckFn (the reconciler's configuration) holding entries whose group is missing or whose group network instance is unknown: a Flush must succeed, empty exactly its targets and leave the rest as read back before. Plus (rib API) Flushes of 1-3 instances in a drawn order that are stopped through the post-change hook at a drawn removal notification, where one further operation is started on another goroutine and the Flush resumes only once that operation returned or is parked on a lock (goroutine state): the final contents must equal 'operation, then flush' or 'flush, then operation' (belief model, forward references off), Flush must report success and counters must equal referrers. Non-trivial = at the flush point >=2 network instances are non-empty and there is a cross-NI reference or a backup group (injection cases: the injection happened and >=2 instances were non-empty); distinct by FNV-64 of the case JSON. Later additions: the injected schedules may register the resolved-entry hook and their second actor may be AddNetworkInstance; rib-level calls run under the watchdog; one shard runs with glog -v=2."
 	c.Assumptions = []string{
 		"status for a zero election id: reason INVALID_ELECTION_ID with code INVALID_ARGUMENT or FAILED_PRECONDITION (the proto comment fixes only the reason)",
 		"when several defects of a request coincide any applicable status is accepted",
